@@ -49,8 +49,8 @@ theorem kv_step_refines (s : Kv) (m : KsId → KMap) (h : Rel s m) (op : KvOp) (
       simp only [hne, Bool.false_eq_true, if_false]
       refine ⟨trivial, ?_⟩
       intro ks
-      obtain ⟨d, hb⟩ := applyItems_rel items s.seqno s.trees m [] hwf (by simp)
-        (fun ks => by simpa using trel_to_brel (h ks)) ks
+      obtain ⟨d, hb⟩ := applyItems_rel items s.seqno s.trees m (fun _ => [])
+        (fun ks => trel_to_brel (h ks)) ks
       exact brel_to_trel hb
   | clear ks =>
     refine ⟨rfl, ?_⟩
